@@ -11,6 +11,7 @@ import Driver.C20
 import Driver.C07
 import Driver.C11
 import Driver.DYNBT
+import Driver.C14
 open Driver
 
 def dispatch (op : String) (args : List String) (obs : String) : Option Verdict :=
@@ -26,6 +27,7 @@ def dispatch (op : String) (args : List String) (obs : String) : Option Verdict 
   <|> (Driver.C07.handle op args obs)
   <|> (Driver.C11.handle op args obs)
   <|> (Driver.DYNBT.handle op args obs)
+  <|> (Driver.C14.handle op args obs)
 
 def processLine (line : String) : String :=
   let line := line.trimRight
